@@ -54,9 +54,8 @@ import (
 const c15nHashPrefix = "cali:" // rulesdefs.RuleHashPrefix, what felix/dataplane/linux passes
 const c15nTableName = "calico"
 
-// Known finding signatures (see the final report / KNOWN_FINDINGS): generation steers around them
-// only when the driver lists them in $VERIF_KNOWN.
-const c15nSigPhantom = "c15-nft-unprogrammed-dirty-chain-forces-table-recreate"
+// Known finding signature (KNOWN_FINDINGS.json): generation steers around it only when the driver
+// lists it in $VERIF_KNOWN.
 const c15nSigBlind = "c15-nft-first-apply-writes-blind-when-listall-fails"
 
 type c15nNoopRecorder struct{}
@@ -98,6 +97,7 @@ type c15nKernel struct {
 	listAllOK    bool
 	extDirty     bool // another program edited Felix's table after Felix last read it completely
 	reads        int  // complete reads of Felix's table (ListAll + rules) so far
+	lastReadAt   time.Time
 
 	// Counters for the Apply in progress.
 	injRunFired, injAfterCommit, natRunFailed, injListRulesFired, injListFired, raceFired, runsOK int
@@ -270,6 +270,7 @@ func (k *c15nKernel) readComplete() {
 		return
 	}
 	k.reads++
+	k.lastReadAt = k.now
 	if k.listAllEpoch == k.editEpoch {
 		k.extDirty = false
 	}
@@ -653,8 +654,9 @@ type c15nH struct {
 	foreign    map[string]string
 	startDirty bool // Felix's table held something at the start
 
-	// Chains that Felix has marked for (re)programming since its last successful transaction
-	// although they may not exist in the kernel (known finding c15nSigPhantom).
+	// Chains that Felix has marked for (re)programming since its last successful Apply; used only
+	// to show that histories reach "queued, no longer wanted, never programmed" (fixed finding
+	// c15-nft-unprogrammed-dirty-chain-forces-table-recreate).
 	pendingRef map[string]bool
 	freshTable bool // the current Table object has not completed a read of the kernel yet
 
@@ -1064,6 +1066,7 @@ func (h *c15nH) apply(label string) bool {
 	extDirtyAtStart := k.extDirty
 	freshAtStart := h.freshTable
 	readsAtStart := k.reads
+	refreshDue := h.refresh > 0 && k.now.Sub(k.lastReadAt) > h.refresh
 	if len(h.phantoms()) > 0 {
 		h.classes["apply-with-queued-chain-absent-from-kernel"] = true
 	}
@@ -1155,6 +1158,12 @@ func (h *c15nH) apply(label string) bool {
 		h.ops = append(h.ops, "PANIC")
 		return false
 	}
+	if refreshDue && k.injListFired == 0 && k.reads == readsAtStart {
+		h.fail("Apply did not re-read the table although the last read was %v ago and RefreshInterval is %v", k.now.Sub(k.lastReadAt), h.refresh)
+	}
+	if refreshDue {
+		h.classes["refresh-timer-due"] = true
+	}
 	// applyUpdates succeeded: nothing is queued in Felix any more.
 	h.pendingRef = map[string]bool{}
 	if k.reads > readsAtStart {
@@ -1225,42 +1234,6 @@ func (h *c15nH) drawRule(t *rapid.T, layer string, selfIdx int, base, forHook bo
 	}
 	r.Comment = rapid.SampledFrom([]string{"", "", "Policy pol1 ingress", "weird \"quoted\" $comment; x"}).Draw(t, "comment")
 	return r
-}
-
-// wouldPhantom: would moving from the current model to `next` leave Felix with a (new) queued
-// chain that is not wanted any more and does not exist in the kernel?
-func (h *c15nH) wouldPhantom(next *c15nModel) bool {
-	already := map[string]bool{}
-	for _, c := range h.phantoms() {
-		already[c] = true
-	}
-	pend := map[string]bool{}
-	for c := range h.pendingRef {
-		pend[c] = true
-	}
-	for c := range h.model.referencedSet() {
-		pend[c] = true
-	}
-	for c := range next.referencedSet() {
-		pend[c] = true
-	}
-	reach := next.reachable()
-	snap := c15nChainSnap(h.k.felixTable())
-	for c := range pend {
-		if _, inKernel := snap[c]; !reach[c] && !inKernel && !already[c] {
-			return true
-		}
-	}
-	return false
-}
-
-// steer reports whether the step to `next` must be skipped because of a known finding.
-func (h *c15nH) steer(next *c15nModel) bool {
-	if ev.Known(c15nSigPhantom) && h.wouldPhantom(next) {
-		h.rec.Excluded(c15nSigPhantom)
-		return true
-	}
-	return false
 }
 
 func c15nForeignTable(fam knftables.Family, name string, chains map[string][][2]string, base map[string]knftables.BaseChainHook) *knftables.FakeTable {
@@ -1619,9 +1592,6 @@ func TestVerifC15NftablesSync(t *testing.T) {
 				}
 				next := h.model.clone()
 				next.chains[c] = rs
-				if h.steer(next) {
-					return
-				}
 				h.model = next
 				h.sendChain(c, rapid.Bool().Draw(t, "plural"))
 				h.notePending()
@@ -1649,9 +1619,6 @@ func TestVerifC15NftablesSync(t *testing.T) {
 				c := rapid.SampledFrom(cands).Draw(t, "chain")
 				next := h.model.clone()
 				delete(next.chains, c)
-				if h.steer(next) {
-					return
-				}
 				h.model = next
 				l := h.layers[c15nLayerOf(c)]
 				if rapid.Bool().Draw(t, "plural") {
@@ -1670,9 +1637,6 @@ func TestVerifC15NftablesSync(t *testing.T) {
 				}
 				next := h.model.clone()
 				next.inserts[bc] = rs
-				if h.steer(next) {
-					return
-				}
 				h.model = next
 				l := c15nLayerOf(bc)
 				h.layers[l].InsertOrAppendRules(c15nLocal(bc), h.buildRules(rs, l, false))
@@ -1688,9 +1652,6 @@ func TestVerifC15NftablesSync(t *testing.T) {
 				}
 				next := h.model.clone()
 				next.appends[bc] = rs
-				if h.steer(next) {
-					return
-				}
 				h.model = next
 				l := c15nLayerOf(bc)
 				h.layers[l].AppendRules(c15nLocal(bc), h.buildRules(rs, l, false))
@@ -1719,9 +1680,6 @@ func TestVerifC15NftablesSync(t *testing.T) {
 				}
 				next := h.model.clone()
 				next.maps[mn] = mm
-				if h.steer(next) {
-					return
-				}
 				h.model = next
 				h.sendMap(mn)
 				h.notePending()
@@ -1741,9 +1699,6 @@ func TestVerifC15NftablesSync(t *testing.T) {
 				mn := rapid.SampledFrom(cands).Draw(t, "map")
 				next := h.model.clone()
 				delete(next.maps, mn)
-				if h.steer(next) {
-					return
-				}
 				h.model = next
 				h.layers[c15nLayerOf(mn)].(nftables.MapsDataplane).RemoveMap(c15nLocal(mn))
 				h.ops = append(h.ops, "m")
@@ -1844,8 +1799,9 @@ func TestVerifC15NftablesSync(t *testing.T) {
 }
 
 // ---------------------------------------------------------------------------------------------
-// Deterministic reproductions of known findings (run by the driver only to confirm that a listed
-// finding still reproduces; not part of the unit's normal run).
+// Deterministic scripts: TestVerifC15NftKnown* reproduce open known findings (run by the driver
+// only to confirm that a listed finding still reproduces; not part of the unit's normal run);
+// TestVerifC15NftRegression* are fixed findings kept as regression tests inside the normal run.
 
 func c15nScriptH(t *testing.T) *c15nH {
 	ev.Quiet()
@@ -1891,9 +1847,10 @@ func TestVerifC15NftKnownBlindFirstApply(t *testing.T) {
 }
 
 // A chain that becomes referenced and stops being referenced before the next Apply (a workload
-// that comes and goes within one batch) makes every transaction fail until, after the 6th failure,
-// Felix deletes and rebuilds its whole table.
-func TestVerifC15NftKnownPhantomChain(t *testing.T) {
+// that comes and goes within one batch) must not disturb anything: before d0eec79 every
+// transaction failed ("flush chain": no such chain) until, after the 6th failure, Felix deleted and
+// rebuilt its whole table.
+func TestVerifC15NftRegressionPhantomChain(t *testing.T) {
 	h := c15nScriptH(t)
 	h.setChain("filter-cali-FORWARD", []c15nRuleSpec{{Match: 1, Action: 0}})
 	h.setInserts("filter-FORWARD", []c15nRuleSpec{{Match: 1, Action: 3, Target: "filter-cali-FORWARD"}})
@@ -1901,7 +1858,13 @@ func TestVerifC15NftKnownPhantomChain(t *testing.T) {
 	h.setChain("filter-cali-tw-wl1", []c15nRuleSpec{{Match: 1, Action: 1}})
 	h.setInserts("filter-INPUT", []c15nRuleSpec{{Match: 1, Action: 3, Target: "filter-cali-tw-wl1"}})
 	h.setInserts("filter-INPUT", nil)
+	if len(h.phantoms()) == 0 {
+		t.Fatalf("HARNESS-GAP: script no longer produces a queued, unwanted, unprogrammed chain")
+	}
 	h.apply("A")
+	if h.k.natRunFailed+h.k.injRunFired > 0 || !h.classes["no-rewrite-checked"] {
+		t.Fatalf("expected a clean Apply with the no-rewrite check armed; failed transactions=%d classes=%v", h.k.natRunFailed, h.classes)
+	}
 }
 
 // TestVerifC15NftRuleHashChaining: the rule hashes the nftables sync relies on for read-back are
